@@ -69,8 +69,19 @@ def not_(x):
     return not t
 
 
-def sym_bool(x=False):
-    return truth(x)
+class _BoolMeta(type):
+    def __instancecheck__(cls, inst):
+        return isinstance(inst, _b.bool)
+
+
+class sym_bool(metaclass=_BoolMeta):
+    """`bool` as seen by the loaded modules: bool(x) keeps a symbolic truth value symbolic;
+    still usable as a dtype and in isinstance()."""
+
+    _vc_native = _b.bool
+
+    def __new__(cls, x=False):
+        return truth(x)
 
 
 def or_(first, *rest):
